@@ -106,28 +106,35 @@ thread_local! {
 
 pub fn install_panic_hook() {
     std::panic::set_hook(Box::new(|info| {
-        let msg = if let Some(s) = info.payload().downcast_ref::<&str>() {
-            s.to_string()
-        } else if let Some(s) = info.payload().downcast_ref::<String>() {
-            s.clone()
-        } else {
-            "<non-string panic>".to_string()
-        };
-        let loc = info
-            .location()
-            .map(|l| format!("{}:{}", l.file(), l.line()))
-            .unwrap_or_default();
         let guarded = GUARD_DEPTH.try_with(|d| d.get() > 0).unwrap_or(false);
         if !guarded {
             // a panic outside a guarded call is a harness bug: show it
-            eprintln!("HARNESS PANIC: {msg} @ {loc}");
+            eprintln!("HARNESS PANIC: {}", describe_panic(info));
         }
-        let _ = LAST_PANIC.try_with(|p| {
-            if let Ok(mut p) = p.try_borrow_mut() {
-                *p = format!("{msg} @ {loc}");
-            }
-        });
+        note_panic(info);
     }));
+}
+
+fn describe_panic(info: &std::panic::PanicHookInfo<'_>) -> String {
+    let msg = if let Some(s) = info.payload().downcast_ref::<&str>() {
+        s.to_string()
+    } else if let Some(s) = info.payload().downcast_ref::<String>() {
+        s.clone()
+    } else {
+        "<non-string panic>".to_string()
+    };
+    let loc = info.location().map(|l| format!("{}:{}", l.file(), l.line())).unwrap_or_default();
+    format!("{msg} @ {loc}")
+}
+
+/// remember the panic message for `guard` (used by the harness' own hook and by the fuzz targets' hook)
+pub fn note_panic(info: &std::panic::PanicHookInfo<'_>) {
+    let text = describe_panic(info);
+    let _ = LAST_PANIC.try_with(|p| {
+        if let Ok(mut p) = p.try_borrow_mut() {
+            *p = text;
+        }
+    });
 }
 
 /// Call code under test; a panic becomes `Err(message)`.
@@ -860,6 +867,14 @@ impl Run {
         for (k, v) in std::mem::take(&mut self.extra) {
             coverage[k] = v;
         }
+        // results of the libFuzzer campaigns and of the dev-profile re-run that ./check ran before this process
+        if let Ok(p) = std::env::var("VP_THOROUGH_EXTRAS") {
+            if let Ok(txt) = std::fs::read_to_string(&p) {
+                if let Ok(v) = serde_json::from_str::<Value>(&txt) {
+                    coverage["thorough_extras"] = v;
+                }
+            }
+        }
         let ev = json!({
             "property_id": self.id,
             "tier": if self.tier == Tier::Quick { "quick" } else { "thorough" },
@@ -873,9 +888,12 @@ impl Run {
         let dir = format!("{VERIF_ROOT}/evidence");
         let _ = std::fs::create_dir_all(&dir);
         let path = format!("{dir}/{}.json", self.id);
-        if let Err(e) = std::fs::write(&path, serde_json::to_string_pretty(&ev).unwrap()) {
-            eprintln!("HARNESS ERROR: cannot write evidence {path}: {e}");
-            return 2;
+        // the dev-profile re-run of the thorough tier only contributes its verdict
+        if std::env::var("VP_NO_EVIDENCE").is_err() {
+            if let Err(e) = std::fs::write(&path, serde_json::to_string_pretty(&ev).unwrap()) {
+                eprintln!("HARNESS ERROR: cannot write evidence {path}: {e}");
+                return 2;
+            }
         }
         println!(
             "[{}] {} evaluations, {} distinct non-trivial, {} parts, {:.1}s",
